@@ -76,7 +76,7 @@ func (s1 jsonSet) diff(
 	strategy patchStrategy,
 ) Diff {
 	d := make(Diff, 0)
-	s2, ok := n.(jsonSet)
+	s2, ok := dispatch(n, options).(jsonSet)
 	if !ok {
 		// Different types
 		var e DiffElement
